@@ -6,6 +6,9 @@ import pkgutil
 from engine.chplug import mkbytes, SymReader  # noqa: F401
 
 
+REPO = os.environ.get("XDIS_VERIF_REPO", "/repo")   # see vcheck.py
+
+
 def opc_tables():
     """{module_name: opcode module} for every concrete opcode table in /repo/xdis/opcodes
     (regenerated from the working tree on every run)."""
